@@ -1,5 +1,6 @@
 """C02 -- lexical format -> parse round trip (structural clauses)."""
-import collections, json
+import collections
+import inline as _inline, json
 import hir, mir, tables, emit, deps
 from hir import strip, field_path
 from facts import AnchorMissing
@@ -109,6 +110,8 @@ def run(ctx):
             pb = f.mir_fn(pn, module=LEXP)
             ctx.fn(pb)
             r |= fields_read(pb)
+            for hb in _inline.new_callee_bodies(f, pb):       # a new private helper of the segmenter reads on its behalf
+                r |= fields_read(hb)
         ctx.ob("L-FIELDS", "%s writes exactly its role's fields" % fn_, w == roles, "writes %s, role %s" % (sorted(w), sorted(roles)))
         ctx.ob("L-FIELDS", "%s: parser reads what the formatter writes" % fn_, roles <= r, "parser side reads %s" % sorted(r))
     # sentence/task item wiring of the formatter
